@@ -60,6 +60,10 @@ func encodingClass(l Leaf) string {
 }
 
 func runC06(c *Ctx) {
+	defer runC06SeparatorByPosition(c)
+	defer runC06ExactMethodBeforeWildcard(c)
+	// clause shared with C07: path captures are applied whenever the template has variables
+	defer c.ImportRules("C07", "C07.4")
 	p := c.P
 	// clause shared with C07: a query parameter cannot replace what the path template captured
 	defer c.ImportRules("C07", "C07.9")
@@ -567,4 +571,157 @@ func sameKey(a, b ssa.Value) bool {
 		return false
 	}
 	return oa[0].String() == ob[0].String() && oa[0].Kind != "other"
+}
+
+// runC06SeparatorByPosition: C06.7 (seed C06k).  A multi-segment capture is the matched segments
+// joined by '/', and a segment may be empty ("/v9//b" captured by {name=**} is "/b").  Whether a
+// separator precedes a segment is therefore a question of the segment's POSITION; asking the
+// accumulated text ("anything written yet?") drops the separator after every leading empty
+// segment.  Decided for every write of a constant "/" into a strings.Builder / bytes.Buffer
+// inside a loop: no condition that dominates the write inside that loop reads the same
+// builder's Len().
+func runC06SeparatorByPosition(c *Ctx) {
+	p := c.P
+	c.Rule("C06.7", "a path separator is written by position in the sequence, not by whether anything was written yet", 1)
+	isSlash := func(v ssa.Value) bool {
+		if k, ok := ConstInt(v); ok && k == '/' {
+			return true
+		}
+		if s, ok := ConstString(v); ok && s == "/" {
+			return true
+		}
+		return false
+	}
+	n := 0
+	for _, fn := range p.Funcs {
+		if !p.inScope(fn) {
+			continue
+		}
+		for _, call := range Calls(fn) {
+			if !IsCallTo(call, "(*strings.Builder).WriteByte", "(*strings.Builder).WriteString", "(*strings.Builder).WriteRune", "(*bytes.Buffer).WriteByte", "(*bytes.Buffer).WriteString", "(*bytes.Buffer).WriteRune") {
+				continue
+			}
+			args := call.Common().Args
+			if len(args) != 2 || !isSlash(args[1]) {
+				continue
+			}
+			if inLoop, _ := MayReach(fn, call, func(in ssa.Instruction) bool { return in == ssa.Instruction(call) }); !inLoop {
+				continue
+			}
+			n++
+			bad, badPos := false, token.NoPos
+			for _, f := range FactsAt(call.Block()) {
+				cmp, ok := f.AsCmp()
+				if !ok {
+					continue
+				}
+				for _, side := range []ssa.Value{cmp.X, cmp.Y} {
+					lc, isCall := side.(*ssa.Call)
+					if !isCall || !IsCallTo(lc, "(*strings.Builder).Len", "(*bytes.Buffer).Len") {
+						continue
+					}
+					if strip(lc.Call.Args[0]) == strip(args[0]) {
+						bad, badPos = true, lc.Pos()
+					}
+				}
+			}
+			c.Check(!bad, "C06.7", FuncName(fn), "separator-by-position", call.Pos(),
+				"the '/' between joined segments does not depend on the builder's length",
+				"the '/' between joined path segments is written only if the builder is non-empty ("+p.Pos(badPos)+"): after a leading empty segment nothing has been written yet, so the separator is dropped and a capture such as \"/b\" (from /v9//b) becomes \"b\"")
+		}
+	}
+	if n == 0 {
+		c.Bad("C06.7", "package", "separator-by-position", token.NoPos, "no loop joins path segments with '/' any more: shape changed")
+	}
+}
+
+// runC06ExactMethodBeforeWildcard: C06.8 (seed C06l).  A template may carry a binding for one
+// HTTP method and, through a custom pattern of kind "*", a catch-all for every other method;
+// they may belong to different RPC methods.  "Exactly the method whose binding matches": the
+// catch-all entry of the per-verb method table is consulted only once the lookup with the
+// request's own method came back empty.  Decided for every lookup in a routeMethods table whose
+// key may be the constant "*": it is dominated by the fact that a lookup in the same table with
+// a key that is a parameter of the function yielded nil.
+func runC06ExactMethodBeforeWildcard(c *Ctx) {
+	p := c.P
+	c.Rule("C06.8", "the wildcard method entry is consulted only after the exact method missed", 1)
+	methodsT := p.MustNamed("routeMethods")
+	mayBeStar := func(v ssa.Value) bool {
+		var visit func(v ssa.Value, depth int) bool
+		visit = func(v ssa.Value, depth int) bool {
+			if depth > 4 {
+				return false
+			}
+			if s, ok := ConstString(v); ok {
+				return s == "*"
+			}
+			switch x := v.(type) {
+			case *ssa.Phi:
+				for _, e := range x.Edges {
+					if visit(e, depth+1) {
+						return true
+					}
+				}
+			case *ssa.UnOp:
+				if x.Op == token.MUL {
+					if ia, ok := x.X.(*ssa.IndexAddr); ok {
+						if al, ok := ia.X.(*ssa.Alloc); ok {
+							for _, ev := range storesToElems(al) {
+								if visit(ev, depth+1) {
+									return true
+								}
+							}
+						}
+					}
+				}
+			case *ssa.Extract:
+				// element of a range over a local array/slice literal
+				if nx, ok := x.Tuple.(*ssa.Next); ok {
+					if rng, ok := nx.Iter.(*ssa.Range); ok {
+						return visit(rng.X, depth+1)
+					}
+				}
+			}
+			return false
+		}
+		return visit(v, 0)
+	}
+	n := 0
+	for _, fn := range p.Funcs {
+		if !p.inScope(fn) {
+			continue
+		}
+		var lookups []*ssa.Lookup
+		ForEachInstr(fn, func(in ssa.Instruction) {
+			if lk, ok := in.(*ssa.Lookup); ok && types.Identical(lk.X.Type(), methodsT) {
+				lookups = append(lookups, lk)
+			}
+		})
+		for _, lk := range lookups {
+			if !mayBeStar(lk.Index) {
+				continue
+			}
+			n++
+			ok := false
+			for _, f := range FactsAt(lk.Block()) {
+				cmp, isCmp := f.AsCmp()
+				if !isCmp || cmp.Op != token.EQL || !IsNilConst(cmp.Y) {
+					continue
+				}
+				ex, isLk := strip(cmp.X).(*ssa.Lookup)
+				if !isLk || ex == lk || !sameMapValue(ex.X, lk.X) {
+					continue
+				}
+				if _, isParam := strip(ex.Index).(*ssa.Parameter); isParam {
+					ok = true
+				}
+			}
+			c.Check(ok, "C06.8", FuncName(fn), "exact-method-before-wildcard", lk.Pos(),
+				"the \"*\" entry is looked up only where the lookup with the request's method is known to have yielded nil",
+				"the wildcard (\"*\") entry of the method table is consulted without the request's own method having been looked up first and found missing: a catch-all custom binding shadows the binding registered for exactly this HTTP method, and the request is dispatched to the catch-all's RPC method")
+		}
+	}
+	if n == 0 {
+		c.Bad("C06.8", "package", "exact-method-before-wildcard", token.NoPos, "no lookup of the wildcard method entry found: shape changed")
+	}
 }
